@@ -51,7 +51,11 @@ namespace drv {
    bool link_eq(const Linkage& a, const Linkage& b) { return a == b; }
    bool link_ne(const Linkage& a, const Linkage& b) { return a != b; }
    bool xfer_eq(const Transfer& a, const Transfer& b) { return a == b; }
+   bool xfer_ne(const Transfer& a, const Transfer& b) { return a != b; }
    bool bspec_eq(Basic_specifier a, Basic_specifier b) { return a == b; }
+   bool bspec_ne(Basic_specifier a, Basic_specifier b) { return a != b; }
+   bool bqual_ne(Basic_qualifier a, Basic_qualifier b) { return a != b; }
+   bool string_ne(const String& a, const String& b) { return a != b; }
    bool bqual_eq(Basic_qualifier a, Basic_qualifier b) { return a == b; }
    bool string_eq(const String& a, const String& b) { return a == b; }
 }
